@@ -29,7 +29,7 @@ The property to break (it also lists the relevant source files):
 
 YOUR TASK: make ONE small source change (a few lines, in non-test .go files under {wt}) that BREAKS this property while
   (a) the repository still compiles (`go build ./...`), and
-  (b) the existing test suite still passes: run `python3 /tmp/tools/cmp_baseline.py {wt}` (takes several minutes; it runs `go test ./...` and compares with the 550 known-stable tests; it must print "now passing 550"). Afterwards delete leftovers: `rm -rf /tmp/chain4energy-e2e-testnet-test*`. Keep your demonstration test OUT of the package directories while running the baseline.
+  (b) the existing test suite still passes: run `mkdir -p {wt}-tmp && TMPDIR={wt}-tmp python3 /tmp/tools/cmp_baseline.py {wt}; rm -rf {wt}-tmp` (takes several minutes; it runs `go test ./...` and compares with the 550 known-stable tests; it must print "now passing 550"; the private TMPDIR matters because other workers run the same suite concurrently - do NOT delete /tmp/chain4energy-e2e-testnet-test* yourself). Keep your demonstration test OUT of the package directories while running the baseline.
 The change must be REALISTIC (something a developer could plausibly write in a refactoring, clean-up or feature commit) and SUBTLE: it must need something specific to manifest — a particular multi-step sequence of operations, a particular stored state or configuration, an unusual but valid input, a fault (a failing transfer) at a particular point, or two cooperating sites that each look fine alone. Do NOT produce a change that ordinary use or the existing tests would expose at once, and do not simply delete an obvious check if you can find something where the code still "looks right".
 {("FOCUS for this round: " + focus) if focus else ""}
 
